@@ -140,10 +140,25 @@ class Sites:
         return "?", "?", "0", via
 
 
+def corpus_lines():
+    out = []
+    for f in sorted((vlib.VERIF / "corpus" / PID).glob("*.case")):
+        for ln in f.read_text().splitlines():
+            if ln.strip() and not ln.startswith("#"):
+                out.append(ln.replace("{D}", str(tmpdir())))
+    return out
+
+
 def run_all(rep, tier, rng, drv):
     scs = scenarios(tier)
     growth = growth_scenarios(tier)
     scs = scs + growth
+    # corpus first: (scenario, k-range) witnesses of earlier findings; their scenarios join the plan
+    corpus = corpus_lines()
+    for c in corpus:
+        s = " ".join(c.split()[1:-2])
+        if s not in scs:
+            scs.append(s)
     cout, probs = run_sharded(drv, ["count " + s for s in scs], env=san_env(), timeout=1200)
     for pr in probs:
         rep.tie_broken(f"counting run died (rc={pr[1]}): {pr[2][-400:]}", pr[3])
@@ -177,6 +192,15 @@ def run_all(rep, tier, rng, drv):
         plan.append((s, ks))
     # shard: contiguous k ranges of about 25 children per line
     lines, owner = [], []
+    for c in corpus:
+        s = " ".join(c.split()[1:-2])
+        if s in base:
+            K = int(base[s][0]["K"])
+            t = c.split()
+            k1, k2 = max(1, int(t[-2])), min(K, int(t[-1]))
+            if k1 <= k2:
+                lines.append(f"fail {s} {k1} {k2}")
+                owner.append(s)
     for s, ks in plan:
         i = 0
         while i < len(ks):
